@@ -772,7 +772,7 @@ static bool assertPolicy(const char* expr) {
 	if (strict) return true;
 	if (!w->assertTag(expr).empty()) return true;
 	// bounds assertions stand right in front of an indexed access: carrying on would only turn the hit into a sanitizer abort
-	{ const std::string e(expr); for (const char* pat : {"< CAPACITY", "<= CAPACITY", "< STATE_COUNT", "< count", "< _count", "<= _count", "index <", "< REGION_COUNT", "< COMPO", "< ORTHO", "< TASK"}) if (e.find(pat) != std::string::npos) return true; }
+	{ const std::string e(expr); for (const char* pat : {"< CAPACITY", "<= CAPACITY", "< STATE_COUNT", "< count", "< _count", "<= _count", "< REGION_COUNT", "< COMPO", "< ORTHO", "< TASK"}) if (e.find(pat) != std::string::npos) return true; }
 	++w->assertionsContinued;
 	return w->assertionsContinued > 200;
 }
